@@ -286,8 +286,60 @@ fn curve2(spec: &Curve2Spec, t: &Iso2D, t2: &Iso2D, qs: &[P2], ls: &[f64]) -> Ve
         };
         cx.label_if(near_vertex, "station_beside_vertex");
         if !s0.direction().x.is_nan() && !cusp && !near_vertex {
-            ensure!((iso.rotation * s0.direction().into_inner() - s1.direction().into_inner()).norm() <= 1e-7, "C03/curve2/station_direction", "station direction is not rotated only");
+            // an edge only a few tolerances long has a direction that is itself uncertain by (coordinate rounding) / (edge length)
+            let v = c.points();
+            let w = tc.points();
+            let mag = v.iter().chain(w.iter()).fold(0.0f64, |m, p| m.max(p.x.abs()).max(p.y.abs()));
+            let i0 = s0.index().min(v.len() - 2);
+            let mut elen = (v[i0 + 1] - v[i0]).norm();
+            if s0.fraction() == 0.0 && i0 > 0 {
+                elen = elen.min((v[i0] - v[i0 - 1]).norm());
+            }
+            if s0.fraction() == 1.0 && i0 + 2 < v.len() {
+                elen = elen.min((v[i0 + 2] - v[i0 + 1]).norm());
+            }
+            let dtol = 1e-7 + 64.0 * f64::EPSILON * mag / elen.max(1e-300);
+            ensure!((iso.rotation * s0.direction().into_inner() - s1.direction().into_inner()).norm() <= dtol, "C03/curve2/station_direction", "station direction is not rotated only");
         }
+    }
+    // stations AT the stored vertices (where the direction is the normalised sum of the two adjacent edge directions and
+    // so depends on how the two edges are combined, not on one edge alone): taken by iteration in both frames
+    {
+        let v = c.points();
+        let n = v.len();
+        let s0s: Vec<_> = c.iter().collect();
+        let s1s: Vec<_> = tc.iter().collect();
+        ensure!(s0s.len() == s1s.len(), "C03/curve2/iter_count", "iteration yields {} stations before and {} after the motion", s0s.len(), s1s.len());
+        let mut turning = 0;
+        for (k, (s0, s1)) in s0s.iter().zip(s1s.iter()).enumerate() {
+            ensure!((iso * s0.point() - s1.point()).norm() <= tol * 4.0, "C03/curve2/vertex_station_point", "station of vertex {k} does not commute with T");
+            ensure!((s0.length_along() - s1.length_along()).abs() <= tol * (n as f64) + 1e-12 * total, "C03/curve2/vertex_station_length", "length along at vertex {k} changed {:e} -> {:e}", s0.length_along(), s1.length_along());
+            let prev = if k > 0 { Some(v[k] - v[k - 1]) } else if c.is_closed() && n >= 3 { Some(v[n - 1] - v[n - 2]) } else { None };
+            let next = if k + 1 < n { Some(v[k + 1] - v[k]) } else if c.is_closed() && n >= 3 { Some(v[1] - v[0]) } else { None };
+            let cusp = match (prev, next) {
+                (Some(a), Some(b)) => (a.normalize() + b.normalize()).norm() < 1e-4,
+                _ => false,
+            };
+            if cusp || s0.direction().x.is_nan() || s1.direction().x.is_nan() {
+                cx.label("vertex_station_at_cusp");
+                continue;
+            }
+            if let (Some(a), Some(b)) = (prev, next) {
+                if a.normalize().perp(&b.normalize()).abs() > 1e-3 {
+                    turning += 1;
+                }
+            }
+            let mag = v.iter().chain(tc.points().iter()).fold(0.0f64, |m, p| m.max(p.x.abs()).max(p.y.abs()));
+            let (minedge, sumnorm) = match (prev, next) {
+                (Some(a), Some(b)) => (a.norm().min(b.norm()), (a.normalize() + b.normalize()).norm()),
+                (Some(a), None) | (None, Some(a)) => (a.norm(), 2.0),
+                _ => (1.0, 2.0),
+            };
+            let dtol = 1e-7 + 64.0 * f64::EPSILON * mag / (minedge * sumnorm.max(1e-4) * 0.5).max(1e-300);
+            ensure!((iso.rotation * s0.direction().into_inner() - s1.direction().into_inner()).norm() <= dtol, "C03/curve2/vertex_station_direction", "direction at vertex {k} is not rotated only: {:?} -> {:?} under a rotation of {:e}", s0.direction().into_inner(), s1.direction().into_inner(), t.angle);
+            ensure!((iso.rotation * s0.normal().into_inner() - s1.normal().into_inner()).norm() <= dtol, "C03/curve2/vertex_station_normal", "normal at vertex {k} is not rotated only");
+        }
+        cx.label_if(turning > 0, "vertex_stations_turning");
     }
     let back = tc.transformed_by(&iso.inverse());
     ensure!(back.count() == c.count() && back.is_closed() == c.is_closed() && back.tol() == c.tol(), "C03/curve2/inverse", "T^-1 T changed count/closedness/tol");
